@@ -45,6 +45,124 @@ func runC20(w *World, r *Report) {
 	ruleExecOp(w, r, execOp)
 	ruleGenIf(w, r, helper)
 	ruleGenSafe(w, r, gen, helper, execOp)
+	ruleGenForm(w, r, gen, execOp)
+	ruleGenVars(w, r)
+}
+
+// ruleGenForm: what GenerateRandomExpr returns is a parenthesised expression
+// (a bare atom is not an expression in prefix notation and does not compile).
+func ruleGenForm(w *World, r *Report, gen, execOp *ssa.Function) {
+	const rule = "R-GENFORM"
+	r.Rule(rule, "every result of GenerateRandomExpr is rendered with a leading parenthesis, or returned only under strings.HasPrefix(expr, \"(\"); a wrapped atom reports execOp of the wrapping operator", 1)
+	for _, ret := range allReturns(gen) {
+		pos := w.InstrPos(ret)
+		v := ret.Results[0]
+		// the struct value returned: a load of a local literal, or a call result
+		okForm, why := false, ""
+		var exprOf func(v ssa.Value) (ssa.Value, ssa.Value, bool)
+		exprOf = func(v ssa.Value) (ssa.Value, ssa.Value, bool) {
+			addr, ok := isLoad(v)
+			if !ok {
+				return nil, nil, false
+			}
+			al, ok := addr.(*ssa.Alloc)
+			if !ok {
+				return nil, nil, false
+			}
+			var ex, res ssa.Value
+			for _, ref := range referrers(al) {
+				fa, ok := ref.(*ssa.FieldAddr)
+				if !ok {
+					continue
+				}
+				for _, ref2 := range referrers(fa) {
+					if st, ok := ref2.(*ssa.Store); ok && st.Addr == ssa.Value(fa) {
+						switch fieldName(fa.X.Type(), fa.Field) {
+						case "Expr":
+							ex = st.Val
+						case "Res":
+							res = st.Val
+						}
+					}
+				}
+			}
+			return ex, res, ex != nil
+		}
+		if ex, res, ok := exprOf(v); ok {
+			if c, okc := ex.(*ssa.Call); okc && calleeFullName(&c.Call) == "fmt.Sprintf" {
+				if f, okf := constString(c.Call.Args[0]); okf && strings.HasPrefix(f, "(") {
+					okForm, why = true, "rendered by Sprintf with a leading parenthesis"
+					// the value of a wrapped atom comes from execOp
+					if rc, okr := unwrapConv(res).(*ssa.Call); !okr || !(closureBehind(rc.Call.Value) == execOp) {
+						okForm, why = false, "the wrapped expression's value is not computed by execOp"
+					}
+				}
+			}
+		}
+		if !okForm {
+			// returned as is under HasPrefix(x.Expr, "(")
+			for _, f := range factsAt(ret.Block()) {
+				c, okc := f.Cond.(*ssa.Call)
+				if !okc || !f.Truth || calleeFullName(&c.Call) != "strings.HasPrefix" {
+					continue
+				}
+				if p, okp := constString(c.Call.Args[1]); okp && p == "(" {
+					if base, okb := loadOfField(c.Call.Args[0], "GenExprResult", "Expr"); okb {
+						if addr, okl := isLoad(v); okl && addr == base {
+							okForm, why = true, "returned only when its text starts with a parenthesis"
+						}
+					}
+				}
+			}
+		}
+		r.Check(okForm, rule, pos, w.Name(gen), "return "+describe(v), why, "GenerateRandomExpr can return a bare atom (level 0), which is not an expression in prefix notation: Compile rejects it")
+	}
+}
+
+// ruleGenVars: GenVariables files a variable under the type of its unified
+// value and reports that same unified value.
+func ruleGenVars(w *World, r *Report) {
+	const rule = "R-GENVARS"
+	r.Rule(rule, "GenVariables reports for each variable the very value whose type it tested, and that value is UnifyType of the map entry (the engine normalises bindings the same way)", 2)
+	outer := w.GlobalFuncValue("GenVariables")
+	if outer == nil || len(outer.AnonFuncs) == 0 {
+		r.Unresolved(rule, "GenVariables option not found")
+		return
+	}
+	fn := outer.AnonFuncs[0]
+	n := 0
+	EachInstr(fn, func(in ssa.Instruction) {
+		st, ok := in.(*ssa.Store)
+		if !ok {
+			return
+		}
+		tn, fld, _, okf := fieldOf(st.Addr)
+		if !okf || tn != "GenExprResult" || fld != "Res" {
+			return
+		}
+		// which type test dominates this literal
+		var tested ssa.Value
+		for _, f := range factsAt(st.Block()) {
+			if ex, ok := f.Cond.(*ssa.Extract); ok && ex.Index == 1 && f.Truth {
+				if ta, ok := ex.Tuple.(*ssa.TypeAssert); ok {
+					tested = ta.X
+				}
+			}
+		}
+		if tested == nil {
+			return // the DNE pool: no type test
+		}
+		n++
+		same := unwrapConv(st.Val) == unwrapConv(tested)
+		unified := false
+		if c, ok := unwrapConv(tested).(*ssa.Call); ok && c.Call.StaticCallee() != nil && c.Call.StaticCallee().Name() == "UnifyType" {
+			unified = true
+		}
+		r.Check(same && unified, rule, w.InstrPos(st), w.Name(fn), "Res = "+describe(st.Val)+" under a type test of "+describe(tested), "the reported value is the unified value whose type was tested", "the reported value is not the normalised value the type test looked at: the generator's oracle computes with a value the engine never sees")
+	})
+	if n < 2 {
+		r.Unresolved(rule, "typed variable pools of GenVariables not recognised")
+	}
 }
 
 // proxyTable extracts return-kind -> operand/polarity facts.
@@ -494,6 +612,10 @@ var c20Witnesses = []Witness{
 		{File: "util.go", Old: "				if res == int64(0) {", New: "				if res == 0 {"}}},
 	{Name: "all-ops-without-safe-flag", Rule: "R-GENSAFE", Edits: []Edit{
 		{File: "util.go", Old: "			if safe {\n				op = numAllOps[r%len(numAllOps)]", New: "			if safe || r == 9 {\n				op = numAllOps[r%len(numAllOps)]"}}},
+	{Name: "level-zero-returns-bare-atom", Rule: "R-GENFORM", Edits: []Edit{
+		{File: "util.go", Old: "	res := helper(c.GenType, level)\n	if strings.HasPrefix(res.Expr, \"(\") {\n		return res\n	}\n", New: "	res := helper(c.GenType, level)\n	if strings.HasPrefix(res.Expr, \"(\") || level == 0 {\n		return res\n	}\n"}}},
+	{Name: "genvariables-reports-raw-value", Rule: "R-GENVARS", Edits: []Edit{
+		{File: "util.go", Old: "				v = UnifyType(v)\n				switch v.(type) {", New: "				switch UnifyType(v).(type) {"}}},
 	{Name: "benign-execop-if-chain", Benign: true, Edits: []Edit{
 		{File: "util.go", Old: "			switch {\n			case op == \"and\" && contains(param, false):\n				return false\n			case op == \"or\" && contains(param, true):\n				return true\n			case contains(param, DNE):\n				return DNE\n			}", New: "			if op == \"and\" && contains(param, false) {\n				return false\n			}\n			if op == \"or\" && contains(param, true) {\n				return true\n			}\n			if contains(param, DNE) {\n				return DNE\n			}"}}},
 }
